@@ -146,8 +146,26 @@ func check(c *c08case) string {
 			return pre + fmt.Sprintf("the first four bytes % x of the binary eexec section are all hexadecimal digits", ci[:4])
 		}
 	case formPFB:
-		if fmt.Sprint(p.PFBSegments) != "[1 2 1 3]" {
-			return pre + fmt.Sprintf("PFB segment types %v, want [1 2 1 3]", p.PFBSegments)
+		// text segment(s), binary segment(s), text segment(s), end marker
+		stage := 0
+		for _, tp := range p.PFBSegments {
+			switch {
+			case tp == 1 && stage == 0, tp == 2 && stage == 1, tp == 1 && stage == 2:
+			case tp == 2 && stage == 0:
+				stage = 1
+			case tp == 1 && stage == 1:
+				stage = 2
+			case tp == 3 && stage >= 1:
+				stage = 3
+			default:
+				stage = -1
+			}
+			if stage < 0 {
+				break
+			}
+		}
+		if stage != 3 || p.PFBSegments[0] != 1 {
+			return pre + fmt.Sprintf("PFB segment types %v, want text, binary, text segments and the end marker", p.PFBSegments)
 		}
 	}
 	if c.Form != formPlain && c.Form != formPDF {
